@@ -32,11 +32,11 @@ ASSUMPTIONS = [
     "the shape of an obstacle / trajectory prediction is given in the body frame and is not moved; obstacle shapes are generated "
     "centred at the origin (documented convention) so that occupancy_at_time is the rigid image",
     "ATTR_TABLE lists every attribute of the commonroad classes that holds spatial content with one decision each (moved / part / "
-    "body / known / cache / none); reflect_world walks every object of every case and stops the run (exit 2) on an unlisted one, so "
-    "the fields of the Lean records (= the moved, body and known entries) are complete w.r.t. the Python classes of this tree",
-    "decision 'known' (world frame, left in place by the code, not named by the property's list of components): Area borders and "
-    "DynamicObstacle.history - modelled as left in place, reported under their own finding keys (known-findings.txt, patches in "
-    "proposed_fixes/); if a tree moves them the snapshot is normalised and the check stays silent",
+    "body / cache / none); reflect_world walks every object of every case and stops the run (exit 2) on an unlisted one, so "
+    "the fields of the Lean records (= the moved and body entries) are complete w.r.t. the Python classes of this tree",
+    "Area borders and DynamicObstacle.history (left in place by trees before 00d3698 / 6df6dd6) are world-frame fields like all "
+    "others: compared exactly by the correspondence and the oracle; a regression is reported under "
+    "C05/LaneletNetwork.translate_rotate/area-border-not-moved resp. C05/DynamicObstacle.translate_rotate/history-not-moved",
     "decision 'body' (obstacle_shape, TrajectoryPrediction.shape, TrafficLight.shape [optional housing rectangle, default centre "
     "(0, 0), used by no reader / writer / renderer]): must stay exactly as they are (checked)",
     "states whose position is neither an array nor a Shape, or whose orientation is neither a number nor an AngleInterval, are "
@@ -328,7 +328,7 @@ def gen_case(ctx):
               for i in range(r.choice([0, 1, 2]))] if nl else []
     obstacles = [gen_obstacle(r, 300 + i, a) for i in range(r.choice([0, 1, 2, 3, 5]))]
     areas = [{"id": 700, "borders": [[_pt(r) for _ in range(r.randint(2, 4))] for _ in range(r.randint(1, 2))]}] \
-        if valid and mode != "parts" and r.random() < 0.15 else []
+        if r.random() < 0.2 else []
     problems = [gen_problem(r, 500 + i, a) for i in range(r.choice([0, 1, 1, 2]))]
     loose = [gen_loose(r, k, a) for k in r.sample(LOOSE_KINDS, r.choice([1, 2, 3]))]
     return {"a": a, "t": t, "mode": mode, "scenario": {"lanelets": lanelets, "signs": signs, "lights": lights, "obstacles": obstacles,
@@ -544,7 +544,6 @@ def _ps(arr):
 #   moved   world frame, moved by translate_rotate          -> field of the Lean record, in `obs`, checked by correspondence + oracle
 #   part    container of components that are walked themselves
 #   body    body frame (dimensions only / relative to the object) -> field of the Lean record, must stay unchanged (checked)
-#   known   world frame, NOT moved by the code               -> field of the Lean record (left in place), known finding
 #   cache   derived from moved attributes (re-created by translate_rotate or recomputed lazily) -> checked as derived geometry
 #   none    not spatial (ids, time, velocity intervals, meta data)
 # The reflection pass (`reflect_world`) walks every object reachable from the scenario, the planning-problem set and the loose
@@ -566,13 +565,13 @@ ATTR_TABLE = {
     "TrafficSign": {"_position": "moved", "_traffic_sign_elements": "none"},
     "TrafficLight": {"_position": "moved", "_shape": "body", "_traffic_light_cycle": "none"},
     "Area": {"_border": "part"},
-    "AreaBorder": {"_border_vertices": "known"},
+    "AreaBorder": {"_border_vertices": "moved"},
     "LaneletNetwork": {"_lanelets": "part", "_traffic_signs": "part", "_traffic_lights": "part", "_areas": "part",
                        "_intersections": "none", "_information": "none", "_buffered_polygons": "cache", "_strtee": "cache"},
     "StaticObstacle": {"_initial_state": "part", "_obstacle_shape": "body", "_initial_occupancy_shape": "cache",
                        "_initial_signal_state": "none", "_signal_series": "none"},
     "DynamicObstacle": {"_initial_state": "part", "_prediction": "part", "_obstacle_shape": "body",
-                        "_initial_occupancy_shape": "cache", "history": "known", "signal_history": "none",
+                        "_initial_occupancy_shape": "cache", "history": "part", "signal_history": "none",
                         "_initial_signal_state": "none", "_signal_series": "none",
                         "_initial_meta_information_state": "none", "_meta_information_series": "none"},
     "PhantomObstacle": {"_prediction": "part"},
@@ -584,8 +583,6 @@ ATTR_TABLE = {
     "PlanningProblem": {"_initial_state": "part", "_goal_region": "part"},
     "PlanningProblemSet": {"_planning_problem_dict": "part"},
 }
-KNOWN_KEYS = {("AreaBorder", "_border_vertices"): "C05/LaneletNetwork.translate_rotate/area-border-not-moved",
-              ("DynamicObstacle", "history"): "C05/DynamicObstacle.translate_rotate/history-not-moved"}
 NON_SPATIAL_CLASSES = {"Interval", "ScenarioID", "MapInformation", "Time", "TrafficSignElement", "SignalState", "Location",
                        "Environment", "GeoTransformation", "TrafficLightCycle", "TrafficLightCycleElement", "Tag",
                        "MetaInformationState", "Intersection", "IncomingGroup", "OutgoingGroup", "CrossingGroup"}
@@ -739,7 +736,7 @@ def snap_light(tl):
 
 
 def snap_areas(sc):
-    """Area borders of the lanelet network (world frame; the code leaves them in place: known finding)."""
+    """Area borders of the lanelet network (world frame; moved by LaneletNetwork.translate_rotate since 00d3698)."""
     return [[_ps(b.border_vertices) for b in ar.border] for ar in sorted(sc.lanelet_network.areas, key=lambda x: x.area_id)]
 
 
@@ -939,6 +936,11 @@ def apply_world(sc, pps, t, a, mode):
         _, err = run("TrafficLight.translate_rotate", s, t, a)
         if err:
             return err
+    for ar in net.areas:
+        for b in ar.border:
+            _, err = run("AreaBorder.translate_rotate", b, t, a)
+            if err:
+                return err
     from commonroad.scenario.obstacle import DynamicObstacle, PhantomObstacle, StaticObstacle
     for o in sc.obstacles:
         if isinstance(o, (StaticObstacle, DynamicObstacle)):
@@ -951,6 +953,14 @@ def apply_world(sc, pps, t, a, mode):
             if err:
                 return err
             o.initial_state = st
+            if isinstance(o, DynamicObstacle):
+                hist = []
+                for h in o.history:
+                    st, err = run(f"{type(h).__name__}.translate_rotate", h, t, a)
+                    if err:
+                        return err
+                    hist.append(st)
+                o.history = hist
         elif isinstance(o, PhantomObstacle) and o.prediction is not None:
             for c in o.prediction.occupancy_set:
                 _, err = run("Occupancy.translate_rotate", c, t, a)
@@ -1117,11 +1127,11 @@ def ang_close(got, want, tau, tol):
     return abs(d - k * tau) <= tol
 
 
-LEFT_KEYS = {"body", "pbody", "lsh", "hist", "areas"}      # snapshot keys of attributes with decision body / known
+LEFT_KEYS = {"body", "pbody", "lsh"}      # snapshot keys of the attributes with decision 'body' (must stay unchanged)
 
 
 def strip(tree):
-    """the snapshot without the attributes that translate_rotate is not meant to / does not move (ATTR_TABLE: body, known)."""
+    """the snapshot without the body-frame attributes (ATTR_TABLE: body), which translate_rotate must not move."""
     if isinstance(tree, dict):
         return {k: strip(v) for k, v in tree.items() if k not in LEFT_KEYS}
     if isinstance(tree, list):
@@ -1235,39 +1245,16 @@ class Oracle:
                     return False
         return True
 
-    def left_fields(self, before, after, enabled):
-        """World-frame attributes the code is known to leave in place (ATTR_TABLE decision 'known': area borders, history):
-        where they are NOT the rigid image, the recorded finding is reported (a few witnesses per worker); where they are
-        (a repaired tree), the snapshot is normalised to what the model answers, so the correspondence stays silent.
-        Returns the normalised `after`."""
-        subs_b = collect(before, {"hist", "areas"}, "", [])
-        subs_a = collect(after, {"hist", "areas"}, "", [])
-        new = []
-        for (path, b), (_, x) in zip(subs_b, subs_a):
-            if not any(k in ("pt", "ang") for k, _, _ in leaves(b, "", [])):      # nothing stored
-                new.append(x)
+    def areas_and_history(self, before, after):
+        """Area borders and obstacle histories (left in place by trees before 00d3698 / 6df6dd6) are world-frame fields like any
+        other; on top of the generic point check they get a failure key of their own, so that a regression is named."""
+        for (path, b), (_, x) in zip(collect(before, {"hist", "areas"}, "", []), collect(after, {"hist", "areas"}, "", [])):
+            if not any(k in ("pt", "ang") for k, _, _ in leaves(b, "", [])) or self.is_moved(b, x):
                 continue
-            if self.is_moved(b, x):
-                if x != b:                           # (x == b: fixed point of this motion, nothing to tell apart)
-                    self.ctx.tag("left-field/moved-by-the-code")
-                new.append(b)
-                continue
-            new.append(x)
-            site = "DynamicObstacle.translate_rotate" if path.endswith("/hist") else "LaneletNetwork.translate_rotate"
-            if x != b:          # touched, but not the rigid image: not the recorded finding, a failure of its own
-                self.fail(site, ("history" if path.endswith("/hist") else "area-border") + "-changed-but-not-rigidly",
-                          f"{path}: {json.dumps(b)[:140]} -> {json.dumps(x)[:140]} (t={self.case['t']['v']}, a={self.a!r})")
-                continue
-            if not enabled:
-                continue
-            key = "history-not-moved" if path.endswith("/hist") else "area-border-not-moved"
-            n = getattr(self.ctx, "_c05_left_reported", {})
-            if n.get(key, 0) < 3:
-                n[key] = n.get(key, 0) + 1
-                self.ctx._c05_left_reported = n
-                self.fail(site, key, f"{path}: stored {json.dumps(b)[:160]} is unchanged after translate_rotate(t={self.case['t']['v']}, "
-                                     f"a={self.a!r}) although the rest of the object was moved")
-        return replace_at(after, {"hist", "areas"}, new)
+            what = "history" if path.endswith("/hist") else "area-border"
+            site = "DynamicObstacle.translate_rotate" if what == "history" else "LaneletNetwork.translate_rotate"
+            self.fail(site, what + ("-not-moved" if x == b else "-changed-but-not-rigidly"),
+                      f"{path}: {json.dumps(b)[:140]} -> {json.dumps(x)[:140]} (t={self.case['t']['v']}, a={self.a!r})")
 
     def bodies(self, site, before, after):
         """body-frame shapes (obstacle_shape, TrajectoryPrediction.shape, TrafficLight.shape) must stay exactly as they are."""
@@ -1478,10 +1465,8 @@ def run_case(ctx, case):
     # ---- after
     cmp_ = Cmp(S, tau, 4 if case.get("probe") else 64)
     after = {"scenario": None, "problems": None, "loose": [None] * len(loose_objs)}
-    left_on = valid and case["mode"] != "parts"      # part by part, nothing is called that could move areas / histories
     if werr is None:
         after["scenario"], after["problems"] = snap_scenario(sc), snap_problems(pps)
-        after["scenario"] = orc.left_fields(before["scenario"], after["scenario"], left_on) if valid else after["scenario"]
         impl_w = [{"ok": after["scenario"]}, {"ok": after["problems"]}]
     else:
         # which of the two calls of the mode 'whole' raised decides which answer is the error
@@ -1502,8 +1487,6 @@ def run_case(ctx, case):
         mo = model[2 + i]
         if err is None:
             after["loose"][i] = snap_loose(lo["kind"], m)
-            if valid:
-                after["loose"][i] = orc.left_fields(before["loose"][i], after["loose"][i], True)
             imp = {"ok": cmp_.tree(after["loose"][i], mo.get("ok"))} if "ok" in mo else {"ok": to_rat(after["loose"][i])}
         else:
             imp = {"err": err_class(err[1])}
@@ -1527,6 +1510,7 @@ def run_case(ctx, case):
         orc.stored(site, strip(before["scenario"]), strip(after["scenario"]))
         orc.consequences(site, strip(before["scenario"]), strip(after["scenario"]), S)
         orc.bodies(site, before["scenario"], after["scenario"])
+        orc.areas_and_history(before["scenario"], after["scenario"])
     if after["problems"] is not None:
         orc.stored("PlanningProblemSet.translate_rotate" if case["mode"] == "whole" else f"problems[{case['mode']}]",
                    before["problems"], after["problems"])
@@ -1535,6 +1519,7 @@ def run_case(ctx, case):
             orc.stored(f"{lo['kind']}.translate_rotate", strip(b), strip(x))
             orc.consequences(f"{lo['kind']}.translate_rotate", strip(b), strip(x), S)
             orc.bodies(f"{lo['kind']}.translate_rotate", b, x)
+            orc.areas_and_history(b, x)
     if werr is None and all(e is None or (lo["kind"] == "state" and (lo["v"].get("pos_other") or lo["v"].get("ori_other")))
                             for lo, e in zip(case["loose"], lerrs)):
         dafter = derived_world(sc, pps, moved_loose, case)
